@@ -1,14 +1,14 @@
 --------------------------- MODULE MC_Gary ---------------------------
 (* Behaviour generator + design check for X02.  A behaviour is a sequence of method calls on the  *)
 (* 1-2 initial arrays of a world (and on the arrays the calls return).  TLC enumerates them        *)
-(* (exhaustively up to MaxLen, or by -simulate); the model state is advanced by the A-layer        *)
-(* (Gary!Step) and every step is checked against the P-layer (DesignOK: A |= P).  The `path`        *)
+(* (exhaustively up to MaxLen, or by -simulate); the model state is the A-layer (Gary!Step) folded *)
+(* over the calls, and every step is checked against the P-layer (DesignOK: A |= P).  The `path`    *)
 (* variable is what the harness executes on real objects.                                          *)
 EXTENDS Gary
 CONSTANTS WorldSet,    \* indices of the worlds explored in this run
           MaxLen       \* calls per behaviour
-VARIABLES w, objs, al, copies, path, last
-vars == <<w, objs, al, copies, path, last>>
+VARIABLES w, path
+vars == <<w, path>>
 
 ResNames == <<"r1", "r2", "r3", "r4", "r5", "r6">>
 Ev(m, recv, arg, res, p, cs) == [m |-> m, recv |-> recv, arg |-> arg, res |-> res, p |-> p, cs |-> cs]
@@ -39,7 +39,7 @@ ObjEvents(ww, os, x, res) ==
     \cup {Ev("getitem_col", x, "", "", <<>>, <<c>>) : c \in (IF On("getitem_col") THEN Range(M.getcols) ELSE {})}
     \cup {Ev("contains", x, "", "", <<>>, <<c>>) : c \in (IF On("contains") THEN Range(M.getcols) ELSE {})}
     \cup {Ev("getitem_cell", x, "", "", <<k>>, <<c>>) : k \in (IF On("getitem_cell") THEN Range(M.labels) ELSE {}), c \in Range(M.cellcols)}
-    \cup {Ev("setitem_cell", x, "", "", <<k, 33>>, <<"start">>) : k \in (IF On("setitem_cell") THEN Range(M.labels) ELSE {})}
+    \cup {Ev("setitem_cell", x, "", "", <<k, 33>>, <<"start">>) : k \in (IF On("setitem_cell") THEN Range(M.labels) \cap Range(o.index) ELSE {})}
     \cup {Ev("getitem_slice", x, "", res, <<k>>, <<>>) : k \in (IF On("getitem_slice") THEN Range(M.slices) ELSE {})}
     \cup {Ev("setitem_slice", x, "", "", <<k>>, <<>>) : k \in (IF On("setitem_slice") THEN Range(M.setslices) ELSE {})}
     \cup {Ev("getitem_mask", x, "", res, <<b>>, <<>>) : b \in (IF On("getitem_mask") THEN Masks(n) ELSE {})}
@@ -91,29 +91,39 @@ Events(ww, os, res) ==
     \cup UNION {ObjEvents(ww, os, x, res) : x \in DOMAIN os}
     \cup UNION {PairEvents(ww, os, x, y, res) : x \in DOMAIN os, y \in DOMAIN os}
 
-NoEvent == [m |-> "none", recv |-> "", arg |-> "", res |-> "", p |-> <<>>, cs |-> <<>>, err |-> "", ret |-> NoRet, alias |-> FALSE]
-Init == /\ w \in WorldSet
-        /\ objs = FromObsAll(Worlds[w].init)
-        /\ al = [nm \in DOMAIN Worlds[w].init |-> nm]
-        /\ copies = {}
-        /\ path = <<>>
-        /\ last = [w |-> w, ev |-> NoEvent, pre |-> objs, post |-> objs, al |-> al, copies |-> {}]
+(* The TLC state is the behaviour itself (world, calls so far); the model state of the arrays is a function *)
+(* of it (Run: the A-layer folded over the calls), so enumerating / sampling successors costs no Step.       *)
+Start(ww) == [objs |-> FromObsAll(Worlds[ww].init), al |-> [nm \in DOMAIN Worlds[ww].init |-> nm], copies |-> {}]
+Run(ww, pth) ==
+    LET RECURSIVE R(_, _)
+        R(st, k) == IF k > Len(pth) THEN st
+                    ELSE LET ev == pth[k]
+                             s == Step(ww, st.objs, st.al, ev)
+                         IN R([objs |-> s.objs, al |-> s.al,
+                               copies |-> IF ev.m = "copy" /\ s.err = "" THEN st.copies \cup {<<ev.recv, ev.res>>} ELSE st.copies],
+                              k + 1)
+    IN R(Start(ww), 1)
+(* the last step as a record the P-layer can judge *)
+LastStep(ww, pth) ==
+    LET st == Run(ww, SubSeq(pth, 1, Len(pth) - 1))
+        ev == pth[Len(pth)]
+        s == Step(ww, st.objs, st.al, ev)
+    IN [w |-> ww, pre |-> st.objs, post |-> s.objs, al |-> st.al, copies |-> st.copies,
+        ev |-> [m |-> ev.m, recv |-> ev.recv, arg |-> ev.arg, res |-> ev.res, p |-> ev.p, cs |-> ev.cs,
+                err |-> s.err, ret |-> s.ret, alias |-> s.alias]]
+
+Init == w \in WorldSet /\ path = <<>>
 Next == /\ Len(path) < MaxLen
-        /\ \E ev \in Events(w, objs, ResNames[Len(path) + 1]) :
-             LET s == Step(w, objs, al, ev)
-                 full == [m |-> ev.m, recv |-> ev.recv, arg |-> ev.arg, res |-> ev.res, p |-> ev.p, cs |-> ev.cs,
-                          err |-> s.err, ret |-> s.ret, alias |-> s.alias]
-             IN /\ objs' = s.objs /\ al' = s.al
-                /\ path' = Append(path, ev)
-                /\ copies' = IF ev.m = "copy" /\ s.err = "" THEN copies \cup {<<ev.recv, ev.res>>} ELSE copies
-                /\ last' = [w |-> w, ev |-> full, pre |-> objs, post |-> s.objs, al |-> al, copies |-> copies]
-                /\ UNCHANGED w
+        /\ \E ev \in Events(w, Run(w, path).objs, ResNames[Len(path) + 1]) : path' = Append(path, ev)
+        /\ UNCHANGED w
 Spec == Init /\ [][Next]_vars
 
 (* design-level statement: the algorithm as modelled satisfies every documented clause, except where a  *)
 (* listed finding says the code does not                                                               *)
-DesignOK == (last.ev.m # "none" /\ Premise(last) /\ ~\E t \in KnownTriggers : TriggerHolds(t, last))
-                => \A c \in Clauses(last) : Holds(c, last)
-(* the listed findings are visible in the model: the A-layer (the code as it is) breaks the clause *)
-DesignFindingsVisible == (last.ev.m # "none" /\ Premise(last)) => \A c \in Clauses(last) : Holds(c, last)
+DesignOK == path # <<>> =>
+    LET last == LastStep(w, path) IN
+    (Premise(last) /\ ~\E t \in KnownTriggers : TriggerHolds(t, last)) => \A c \in Clauses(last) : Holds(c, last)
+(* the listed findings are visible in the model: with this invariant the A-layer (the code as it is) breaks the clause *)
+DesignFindingsVisible == path # <<>> =>
+    LET last == LastStep(w, path) IN Premise(last) => \A c \in Clauses(last) : Holds(c, last)
 =============================================================================
